@@ -71,6 +71,9 @@ def solve_and_judge(case, which, in_situ=True):
             d = abs(float(E.E[n][k]) - b.V[n][k]) / max(1.0, abs(b.V[n][k]))
             worst = max(worst, d)
     rec.count('models.judged')
+    for opt, on in case.get('build_opts', {}).items():
+        if on:
+            rec.count('models.judged.with_' + opt)
     rec.count('exact.variables', len(E.names))
     rec.count('exact.frozen_equations', len(E.frozen))
     nontrivial = J.max_flow > Fraction(1, 1000)
@@ -97,7 +100,7 @@ def gen_case(rng, idx, tier, emphasis=None):
     else:
         spec = M.gen_spec(rng)
     return {'kind': 'model', 'spec': spec, 'ext_first': rng.random() < 0.7,
-            'build_opts': {'query_zone': rng.random() < 0.3, 'interleave_model': rng.random() < 0.5,
+            'build_opts': {'query_zone': rng.random() < 0.3, 'interleave_model': idx % 2 == 0 or rng.random() < 0.2,
                            'region_default_currency': rng.random() < 0.4}}
 
 
@@ -119,7 +122,8 @@ class C01(object):
                    'numeraire zone itself is not judged (gold purchases legitimately leave a numeraire position)',
                    'exact re-solution pins genuinely non-affine equations (Tobin weight) to the solver value']
     required_counters = ('models.judged', 'money_created_or_destroyed_in_zone.judged',
-                         'sector_ledger_not_sum_of_declared_flows.judged', 'insitu.addcashflow.post_evaluated')
+                         'sector_ledger_not_sum_of_declared_flows.judged', 'insitu.addcashflow.post_evaluated',
+                         'models.judged.with_interleave_model')
     which = ('zone', 'ledger')
 
     def n_cases(self, tier):
